@@ -214,7 +214,17 @@ func cmdCheck(args []string) {
 	if !*update {
 		var again []*Oblig
 		for _, o := range obs {
-			if o.Res != nil && o.Res.Status != "unsat" && o.Res.Status != "sat" && !knownBase[baseName(o.Name)] {
+			// (also retried: a "sat" that only the quantifier-free relaxation produced while the proof query
+			// itself ran out of time - under load that is a timeout in disguise, not a refutation)
+			relaxedAfterTimeout := false
+			if o.Res != nil && o.Res.Status == "sat" && strings.Contains(o.Res.Solver, "(relaxed)") {
+				for _, tr := range o.Res.Tried {
+					if strings.Contains(tr, ":timeout:") {
+						relaxedAfterTimeout = true
+					}
+				}
+			}
+			if o.Res != nil && (o.Res.Status != "unsat" && o.Res.Status != "sat" || relaxedAfterTimeout) && !knownBase[baseName(o.Name)] {
 				if o.TimeoutS > 0 {
 					o.TimeoutS *= 3
 				} else {
